@@ -287,9 +287,16 @@ def text_routing_stream(rng, n, mc_fraction, clause_filter=None):
     """n generated cases through the real Builder and the driver op `build.route`: full-text correspondence with
     the model, and the routing table the Dezyne model + configuration demand evaluated (in Lean,
     DznModel.SpecRouting) on the assignments read back from the IMPLEMENTATION's source text (DznModel.IrParse)"""
-    cases = [G.gen_case(rng, want_mc=rng.random() < mc_fraction) for _ in range(n)]
+    base = [G.gen_case(rng, want_mc=rng.random() < mc_fraction) for _ in range(max(1, n // 2))]
+    # every model is parsed once and built twice by ONE Builder object: as generated, then with the other
+    # runtime semantics on every side - a configuration-dependent result must not survive from build to build
+    cases, impls = [], []
+    for c in base:
+        shared = {}
+        for v in (c, G.flipped_semantics(c)):
+            cases.append(v)
+            impls.append(G.build_impl(dict(X.strip(v), op='build.route'), shared))
     stripped = [dict(X.strip(c), op='build.route') for c in cases]
-    impls = [G.build_impl(s) for s in stripped]
     outs = run_driver([dict(s, impl=i) for s, i in zip(stripped, impls)]) if stripped else []
     failures, disagreements, shapes, focus = [], [], [], []
     hist = {'mc': 0, 'ok': 0, 'mc_not_first': 0, 'mc_only_mts_provides': 0, 'two_plus_mts_provides': 0}
